@@ -1143,7 +1143,7 @@ class GenA:
                 # there leaks module state of the standard library's json, which is outside every
                 # listed property and would poison the rest of the run
                 if op["op"] not in ("evict", "import", "json_nested", "restart") and \
-                        op.get("codec") != "json_ctx":
+                        not str(op.get("codec", "")).startswith("json_ctx"):
                     op["inject"] = {
                         "ordinal": rng.choice([1, 2, 3, 5, 8, 13, 21, 34, 55, 89]),
                         "exc": rng.choice(["KeyboardInterrupt", "MemoryError"]),
